@@ -15,7 +15,7 @@ HERE = os.path.dirname(os.path.dirname(os.path.abspath(__file__)))
 REPO = os.environ.get("VERIF_REPO", "/repo")
 CACHE = os.environ.get("VERIF_CACHE", "/var/tmp/gufo-verif-cache")
 KDIR = os.path.join(HERE, 'contracts', 'kani')
-MEM_KB = int(os.environ.get("VERIF_KANI_MEM_KB", str(14 * 1024 * 1024)))
+MEM_KB = int(os.environ.get("VERIF_KANI_MEM_KB", str(24 * 1024 * 1024)))
 
 
 def sh(cmd, cwd=None, env=None, timeout=None):
